@@ -89,6 +89,39 @@ fn scn_oneshot(o: &Opts, tr: &mut Tr) {
         let d = gen::data(kind, n, &mut r);
         oneshot_case(tr, &format!("w-{}-{}-l{}", kind, n, lvl), "C01", &d, lvl, n % 2 == 0, kind);
     }
+    // cheap exploration: every level x sizes straddling the block / window / buffer thresholds x
+    // data families; only a case whose round trip is off is written out for TLC to judge
+    let mut nb = 0usize;
+    let thr2: [usize; 13] = [258, 4096, 31744, 32768, 58000, 63488, 65535, 65536, 85196, 91018, 98304, 131072, 190000];
+    for (ti, &t) in thr2.iter().enumerate() {
+        for delta in [-2i64, -1, 0, 1, 2] {
+            for lvl in 0..=10u8 {
+                if t > 70000 && lvl > 6 && !o.thorough { continue; }
+                for kind in ["rand", "litmatch", "sparse3"] {
+                    if !o.thorough && (ti + lvl as usize + nb) % 2 == 1 && kind != "rand" { nb += 1; continue; }
+                    nb += 1;
+                    let n = (t as i64 + delta).max(0) as usize;
+                    let d = gen::data(kind, n, &mut r);
+                    let zl = nb % 2 == 0;
+                    if oneshot_suspicious(&d, lvl, zl) {
+                        oneshot_case(tr, &format!("bulk-{}-{}-l{}-{}", kind, n, lvl, zl), "C01", &d, lvl, zl, kind);
+                    }
+                    tr.bulk_run += 1;
+                }
+            }
+        }
+    }
+    for i in 0..(if o.thorough { 6000 } else { 800 }) {
+        let kind = ["rand", "litmatch", "text", "mixed", "sparse3", "alpha4", "runs", "xx"][i % 8];
+        let n = match i % 5 { 0 => r.gen_range(0..300), 1 => r.gen_range(300..5000), 2 => r.gen_range(5000..40000), 3 => r.gen_range(40000..140000), _ => r.gen_range(30000..36000) };
+        let lvl = if i % 13 == 0 { r.gen() } else { (i % 11) as u8 };
+        let d = gen::data(kind, n, &mut r);
+        let zl = i % 2 == 0;
+        if oneshot_suspicious(&d, lvl, zl) {
+            oneshot_case(tr, &format!("bulkr-{}-{}-{}-l{}-{}", i, kind, n, lvl, zl), "C01", &d, lvl, zl, kind);
+        }
+        tr.bulk_run += 1;
+    }
     if o.thorough {
         // literal-heavy large inputs: LZ buffer full, stored fallback with dictionary wrap
         for (kind, lvl, n) in [("rand", 6u8, 70_000usize), ("rand", 1, 100_000), ("text", 6, 120_000), ("text", 1, 90_000),
